@@ -30,7 +30,7 @@ def run(tier):
         tr = pc.SupportTrace(os.path.join(work, "c10.ndjson"))
         kappa, nu = AIR.vonkarman_constant, AIR.kinematic_viscosity
         # ---- Charnock ------------------------------------------------------------------------------------------------
-        for rep in range(12 if quick else 150):
+        for rep in range(12 if quick else 3000):
             alpha = rng.uniform(0.005, 0.04)
             visc = rng.choice([0.0, 0.0, 0.11])
             n = rng.choice([1, 5, 40])
@@ -80,7 +80,7 @@ def run(tier):
         for ci_, (N, start) in enumerate([(24, 0), (36, 0)] if quick else [(16, 0), (24, 0), (24, 5), (36, 0), (24, 0), (36, 5)]):
             gen = (bal_visc if ci_ % 2 else bal).generation
             dirs = [start + j * 360.0 / N for j in range(N)]
-            B = 4 if quick else 10
+            B = 4 if quick else 24
             vds, winds, wdirs, depths = [], [], [], []
             for b in range(B):
                 md = rng.uniform(0, 360)
@@ -90,46 +90,59 @@ def run(tier):
                 depths.append(rng.choice([np.inf, 25.0]))
             spec = pc.spectrum(f, dirs, vds, depths)
             U, W = pc.da(winds), pc.da(wdirs)
-            try:
-                z0 = gen.roughness(U, W, spec).values
-            except Exception as e:
-                chk.violation("raise:janssen:%s" % type(e).__name__, "wave dependent roughness raised %s" % type(e).__name__, {"N": N, "error": str(e)[:300]})
-                continue
-            evals += B
-            grid, par = gen.spectral_grid(spec), gen.parameters
-            logs = np.linspace(-20.0, 0.0, 43)[1:-1]          # 41 interior points of the search interval
-            for b in range(B):
-                wind = (float(winds[b]), float(wdirs[b]), "u10")
-                vals = []
-                for lz in logs:
-                    try:
-                        vals.append(float(_stress_iteration_function(float(lz), np.asarray(vds[b]), wind, float(depths[b]), gen._wind_source_term_function,
-                                                                     gen._tail_stress_parametrization_function, grid, par, np.empty(np.asarray(vds[b]).shape))))
-                    except Exception:
-                        vals.append(0.0)       # the balance function is not defined here: no obligation from this scan
-                sg = [1 if v > 0 else -1 if v < 0 else 0 for v in vals]
-                zb = float(z0[b])
-                ctx = {"N": N, "point": b, "U10": winds[b], "wind_dir": wdirs[b], "depth": float(depths[b])}
-                if not (math.isnan(zb) or zb > 0):
-                    chk.violation("janssen-positive", "wave dependent roughness is neither missing nor a positive length", dict(ctx, z0=zb))
+            # phase 0: the generation object as configured; phase 1: the SAME generation, spectrum and wind objects after update_parameters
+            # (the roughness must be the root for the parameters in force now)
+            saved = {k: gen._parameters[k] for k in ("growth_parameter_betamax", "charnock_constant")}
+            z0_first = None
+            for phase in (0, 1):
+                if phase == 1:
+                    gen.update_parameters({"growth_parameter_betamax": 1.33, "charnock_constant": 0.0144})
+                try:
+                    z0 = gen.roughness(U, W, spec).values
+                except Exception as e:
+                    chk.violation("raise:janssen:%s" % type(e).__name__, "wave dependent roughness raised %s" % type(e).__name__, {"N": N, "error": str(e)[:300]})
                     continue
-                if math.isnan(zb):
-                    res = 0
-                else:
-                    lz = math.log(zb)
-                    res = int(np.searchsorted(logs, lz))          # cell index: logs[res-1] <= lz < logs[res]
-                    res = max(res, 0)
-                tr.add({"kind": "root", "what": "janssen z0 N=%d point=%d" % (N, b), "sg": sg, "res": res if res >= 1 else len(sg), "finite": 0})
-                distinct.add(("janssen", N, start, b))
-                single = sum(1 for i in range(len(sg) - 1) if sg[i] * sg[i + 1] < 0) == 1 and 0 not in sg
-                if single and not math.isnan(zb):
-                    kap = par["vonkarman_constant"]
-                    ust = winds[b] * kap / math.log(par["elevation"] / zb)
-                    tau, _ = _total_stress_point(zb, np.asarray(vds[b]), wind, float(depths[b]), gen._wind_source_term_function,
-                                                 gen._tail_stress_parametrization_function, grid, par)
-                    lhs = par["air_density"] * ust ** 2
-                    if abs(lhs - tau) > 1e-4 * lhs:
-                        chk.violation("janssen-balance", "returned roughness does not satisfy rho_air u*^2 = total stress (1e-4 relative)", dict(ctx, z0=zb, lhs=lhs, total_stress=float(tau)))
+                evals += B
+                if phase == 0:
+                    z0_first = z0
+                grid, par = gen.spectral_grid(spec), gen.parameters
+                logs = np.linspace(-20.0, 0.0, 43)[1:-1]          # 41 interior points of the search interval
+                for b in range(B):
+                    wind = (float(winds[b]), float(wdirs[b]), "u10")
+                    vals = []
+                    for lz in logs:
+                        try:
+                            vals.append(float(_stress_iteration_function(float(lz), np.asarray(vds[b]), wind, float(depths[b]), gen._wind_source_term_function,
+                                                                         gen._tail_stress_parametrization_function, grid, par, np.empty(np.asarray(vds[b]).shape))))
+                        except Exception:
+                            vals.append(0.0)       # the balance function is not defined here: no obligation from this scan
+                    sg = [1 if v > 0 else -1 if v < 0 else 0 for v in vals]
+                    zb = float(z0[b])
+                    ctx = {"N": N, "point": b, "U10": winds[b], "wind_dir": wdirs[b], "depth": float(depths[b]), "after_update_parameters": phase == 1}
+                    if not (math.isnan(zb) or zb > 0):
+                        chk.violation("janssen-positive", "wave dependent roughness is neither missing nor a positive length", dict(ctx, z0=zb))
+                        continue
+                    if math.isnan(zb):
+                        res = 0
+                    else:
+                        lz = math.log(zb)
+                        res = int(np.searchsorted(logs, lz))          # cell index: logs[res-1] <= lz < logs[res]
+                        res = max(res, 0)
+                    tr.add({"kind": "root", "what": "janssen z0 N=%d point=%d phase=%d" % (N, b, phase), "sg": sg, "res": res if res >= 1 else len(sg), "finite": 0})
+                    distinct.add(("janssen", N, start, b))
+                    single = sum(1 for i in range(len(sg) - 1) if sg[i] * sg[i + 1] < 0) == 1 and 0 not in sg
+                    if single and not math.isnan(zb):
+                        kap = par["vonkarman_constant"]
+                        ust = winds[b] * kap / math.log(par["elevation"] / zb)
+                        tau, _ = _total_stress_point(zb, np.asarray(vds[b]), wind, float(depths[b]), gen._wind_source_term_function,
+                                                     gen._tail_stress_parametrization_function, grid, par)
+                        lhs = par["air_density"] * ust ** 2
+                        if abs(lhs - tau) > 1e-4 * lhs:
+                            chk.violation("janssen-balance", "returned roughness does not satisfy rho_air u*^2 = total stress (1e-4 relative)", dict(ctx, z0=zb, lhs=lhs, total_stress=float(tau)))
+            gen.update_parameters(saved)
+            z0 = z0_first
+            if z0_first is None:
+                continue
             # missing wind speed -> missing roughness, neighbours untouched
             Un = np.array(winds)
             Un[0] = np.nan
